@@ -93,13 +93,14 @@ def bounded(tier, seed):
     for si, spec in enumerate(H.file_specs(tier, seed)[:2]):
         f = H.make_file(P, spec)
         for d, n, _ in spec['dims']:
-            for r in ('mean', 'sum', 'max'):
+            for r in ('mean', 'sum', 'max', 'min', 'std', 'median', 'var'):
                 def t(f=f, d=d, r=r):
                     g = reduce_dim(f, '%s,%s' % (d, r))
                     for vk, v in f.variables.items():
                         if d in v.dimensions and vk in g.variables:
                             ax = list(v.dimensions).index(d)
-                            exp = getattr(np.ma.asarray(v[...]), r)(axis=ax, keepdims=True)
+                            a = np.ma.asarray(v[...])
+                            exp = np.ma.median(a, axis=ax, keepdims=True) if r == 'median' else getattr(a, r)(axis=ax, keepdims=True)
                             e = H.arr_equal(g.variables[vk][...], exp, exact=False, rtol=1e-5)
                             if e:
                                 return 'reduce_dim(%s,%s) variable %s: %s' % (d, r, vk, e)
